@@ -44,6 +44,7 @@ fn main() {
         "c20" => c20::run(rest),
         "mc" => mc::run(rest),
         "extras" => extra::run(rest),
+        "smtlet" => c05::run_smtlet(rest),
         "typeck" => extra::run_typeck(rest),
         "sigorder" => extra::run_sigorder(rest),
         "enc" => mc::run_enc(rest),
